@@ -167,7 +167,8 @@ def Case.expHttpHost (c : Case) : Str :=
   | _ => []
 
 def Case.expPlan (c : Case) : Plan :=
-  ⟨c.scheme.proto, c.scheme.pipeline, c.scheme.isH3, c.expNet, c.expDial, c.expServerName, c.expHttpHost⟩
+  ⟨c.scheme.proto, c.scheme.pipeline, c.scheme.isH3, c.expNet, c.expDial, c.expServerName, c.expHttpHost,
+    if c.scheme.tcpRetry then some c.expDial else none⟩
 
 theorem join_no_at {h : Host} (p : Str) (wh : h.wf = true) : hasAtPrefix (joinHostPort h.bare p) = false := by
   cases h with
@@ -274,7 +275,7 @@ theorem newUpstream_case {c : Case} (w : c.wf = true) :
     simp only [Scheme.stream, Scheme.defaultPort] at hd hn en
     simp [Scheme.parsed, Scheme.text, sUdp, sTcp, sTls, sHttps, sHttp, sH3, sQuic, sDoq, sTcpPipeline,
       sTlsPipeline, hd, hn, hr, hh, Case.expPlan, hs, Scheme.proto, Scheme.pipeline, Scheme.isH3,
-      Case.expServerName, Case.expHttpHost, httpsServerName, h3ServerName]
+      Case.expServerName, Case.expHttpHost, httpsServerName, h3ServerName, Scheme.tcpRetry]
     first | done | exact en.symm
 
 end MosVerif.Addr
